@@ -55,11 +55,86 @@ def corpus_import_delete_race(e):
     return []
 
 
+def corpus_index_clauses(ctx, e):
+    """scripted cases for two clauses, run before the random histories: "a copy recorded removed by the daemon is gone from disk"
+    under an I/O error of the unlink, and "a completed request implies a copy recorded in its destination group" for every
+    pre-existing destination row (none, N/N after an earlier removal, X recorded corrupt)"""
+    import itertools
+    import pathlib
+    import shutil
+    import dharness
+    import world as worldmod
+    probs = []
+    for scenario, pre in itertools.chain([("delete-eio", None)], (("repull", p_) for p_ in (None, ("N", "N"), ("X", "Y"), ("X", "N")))):
+        w = worldmod.World(e)
+        db = w.db
+        for m in (db.StorageTransferAction, db.ArchiveFileCopyRequest, db.ArchiveFileImportRequest, db.ArchiveFileCopy,
+                  db.ArchiveFile, db.ArchiveAcq, db.StorageNode, db.StorageGroup):
+            m.delete().execute()
+        shutil.rmtree(os.path.join(e.tmp, "roots"), ignore_errors=True)
+        g1, g2, g3 = w.group("g1"), w.group("g2"), w.group("g3")
+        n1, a1, a2 = w.node("n1", g1, stype="F"), w.node("a1", g2, stype="A"), w.node("a2", g3, stype="A")
+        f = w.file(w.acq("acq"), "sub/f0.dat", b"payload payload")
+        w.copy(f, a1, has="Y")
+        w.copy(f, a2, has="Y")
+        d = worldmod.Daemon(e, "h1")
+        os.environ["PATH"] = os.path.join(dharness.wharness.FAKE, "none")
+        real_unlink = pathlib.Path.unlink
+        try:
+            if scenario == "delete-eio":
+                w.copy(f, n1, has="Y", wants="N")
+                fired = []
+
+                def failing(self_, *a, **k):
+                    if not fired and self_.name == "f0.dat":
+                        fired.append(1)
+                        raise OSError(5, "Input/output error (injected)", str(self_))
+                    return real_unlink(self_, *a, **k)
+                pathlib.Path.unlink = failing
+                d.iterate()
+                d.drain()
+                pathlib.Path.unlink = real_unlink
+                c = db.ArchiveFileCopy.get(file=f, node=n1)
+                if c.has_file == "N" and w.file_on(n1, f) is not None:
+                    probs.append("the unlink of a released copy failed with EIO, yet the copy was recorded removed (has_file=N) while the "
+                                 "file is still on disk")
+                d.iterate()
+                d.drain()                      # the next pass retries
+                c = db.ArchiveFileCopy.get(file=f, node=n1)
+                if not (c.has_file == "N" and w.file_on(n1, f) is None):
+                    probs.append(f"after the retry pass the released copy is {c.has_file}/{c.wants_file} and the file is "
+                                 f"{'still there' if w.file_on(n1, f) is not None else 'gone'}")
+            else:
+                if pre is not None:
+                    w.copy(f, n1, has=pre[0], wants=pre[1], on_disk=None if pre[0] == "N" else b"corrupt corrupt!")
+                rq = w.req(f, a1, g1)
+                for _ in range(3):
+                    d.iterate()
+                    d.drain()
+                rq = db.ArchiveFileCopyRequest.get(id=rq.id)
+                c = db.ArchiveFileCopy.get_or_none(file=f, node=n1)
+                if rq.completed and not (c is not None and c.has_file == "Y" and w.file_on(n1, f) == b"payload payload"):
+                    probs.append(f"a transfer onto a node whose copy row was {pre} was completed but the destination row is "
+                                 f"{None if c is None else (c.has_file, c.wants_file)} and the file on disk is {w.file_on(n1, f)!r}")
+                if not rq.completed and not rq.cancelled and pre != ("X", "N"):
+                    probs.append(f"a transfer onto a node whose copy row was {pre} was never completed")
+        except Exception as ex:  # noqa
+            probs.append(f"scenario {scenario}/{pre} raised {type(ex).__name__}: {ex}")
+        finally:
+            pathlib.Path.unlink = real_unlink
+            os.environ["PATH"] = "/usr/local/bin:/usr/bin:/bin"
+        ctx.case(("corpus", scenario, pre), nontrivial=True)
+        ctx.count("corpus:index-clauses")
+    return probs
+
+
 def run(ctx):
     ok = common.proof_stage(ctx, MODULE)
     rng = ctx.rng
-    nh = 60 if ctx.quick() else 2000
+    nh = 90 if ctx.quick() else 2000
     with envmod.Env(dbfile=True) as e:     # file database: persistent daemon loops and two-worker passes need threads
+        for p in corpus_index_clauses(ctx, e):
+            ctx.violation("index:corpus:" + p[:40].replace(" ", "_"), p, {"kind": "corpus2", "name": "index clauses"})
         for p in corpus_import_delete_race(e):
             ctx.violation("import-delete-race", p, {"kind": "corpus", "name": "import vs delete of one file by two workers"})
         for i in range(nh):
